@@ -41,18 +41,18 @@ def stepK (fs : FS) (includeDirs : List String) (fuel : Nat) (path : String) (cu
       match splitWs (stripComment raw) with
       | [_, rel] =>
         let rel := String.ofList (stripQuotes rel)
-        if !(normRel rel || normAbs rel) then .error (.unsupported "include path form") else
+        if !(pathOk rel) then .error (.unsupported "include path form") else
         match lookupPath fs rel currentDirs with
         | none => .error (.asm line)
         | some incPath =>
-          if fs.isDir incPath then .error (.internal "IsADirectoryError") else
-          match fs.readBytes incPath with
+          if fs.isDirAt incPath then .error (.internal "IsADirectoryError") else
+          match fs.readAt incPath with
           | none => .error (.internal "FileNotFoundError")
           | some bs =>
             match bytesToAscii bs with
             | none => .error (.unsupported "non-ASCII source")
             | some src => do
-              let inc ← readLinesAux fs includeDirs fuel incPath (pathDirname incPath) src
+              let inc ← readLinesAux fs includeDirs fuel incPath (baseOf incPath) src
               let more ← k
               pure (inc ++ more)
       | _ => .error (.asm line)
@@ -60,11 +60,11 @@ def stepK (fs : FS) (includeDirs : List String) (fuel : Nat) (path : String) (cu
       match splitWs raw with
       | [kw, rel] =>
         let rel := String.ofList rel
-        if !(normRel rel || normAbs rel) then .error (.unsupported "include path form") else
+        if !(pathOk rel) then .error (.unsupported "include path form") else
         match lookupPath fs rel currentDirs with
         | none => .error (.asm line)
         | some incPath =>
-          match fs.readBytes incPath with
+          match fs.readAt incPath with
           | none => .error (.unsupported "include_bytes of a directory")
           | some bs => do
             let line' : Line := { line with
@@ -198,11 +198,11 @@ theorem stripWs_isEmpty_of_include {raw : List Char}
     lines of that file, read with the file's own directory as base and one level less fuel -/
 theorem lineHead_include (fs : FS) (dirs : List String) (fuel : Nat) (path : String) (cd : List String)
     (n : Nat) (raw : List Char) (rel incPath : String) (bs : List Nat) (src : List Char)
-    (hinc : IsIncludeLine raw rel) (hform : (normRel rel || normAbs rel) = true)
-    (hlook : lookupPath fs rel cd = some incPath) (hdir : fs.isDir incPath = false)
-    (hread : fs.readBytes incPath = some bs) (hascii : bytesToAscii bs = some src) :
+    (hinc : IsIncludeLine raw rel) (hform : pathOk rel = true)
+    (hlook : lookupPath fs rel cd = some incPath) (hdir : fs.isDirAt incPath = false)
+    (hread : fs.readAt incPath = some bs) (hascii : bytesToAscii bs = some src) :
     lineHead fs dirs fuel path cd n raw =
-      readLinesAux fs dirs fuel incPath (pathDirname incPath) src := by
+      readLinesAux fs dirs fuel incPath (baseOf incPath) src := by
   obtain ⟨hpre, kw, w, hsplit, hrel⟩ := hinc
   unfold lineHead stepK
   rw [if_neg (by rw [stripWs_isEmpty_of_include hpre]; decide)]
@@ -211,7 +211,7 @@ theorem lineHead_include (fs : FS) (dirs : List String) (fuel : Nat) (path : Str
   dsimp only
   rw [hrel, hform]
   simp only [Bool.not_true, Bool.false_eq_true, if_false, hlook, hdir, hread, hascii]
-  cases readLinesAux fs dirs fuel incPath (pathDirname incPath) src <;>
+  cases readLinesAux fs dirs fuel incPath (baseOf incPath) src <;>
     simp [bind, Except.bind, pure, Except.pure]
 
 /-! ### one line per "\n": `splitLines` gives the lines back -/
